@@ -110,7 +110,13 @@ def hostport(repo, host_arg, oport, client_audit=False, target_file=None, parse=
         t = call_name(call) or unparse(call.func)
         if t == 'Utils.parse_host_and_port':
             v = interp.value(call.args[0], e)
-            return (True, parse(v) if parse is not None else (v, 22))
+            dp = 22         # the function's declared default
+            if len(call.args) > 1:
+                dp = interp.value(call.args[1], e)
+            for k in call.keywords:
+                if k.arg == 'default_port':
+                    dp = interp.value(k.value, e)
+            return (True, parse(v, dp) if parse is not None else (v, dp))
         if t == 'Utils.parse_int':
             v = interp.value(call.args[0], e)
             try:
